@@ -20,7 +20,8 @@ RULE = ("complete grid: 7 blocking operations (TCP Receive basic/buffered, TCP S
         "a timeout result) ; distinct op sequences.")
 ASSUMPTIONS = ["A-POLL: poll(t) returns 0 only after t ms and not later than t ms plus scheduling latency; nothing is measured on a wall clock",
                "|T| < 2^31 ms (documented domain)", "A-CLOCK: steady_clock monotone"]
-TRUSTED = ["tools/cxx2lean_eff.py (stage 2, DESIGN.md 0.7.1): world boundary (DoPoll, Interrupted, Clock::now, ::send, ::recv, SocketError opaque; handles dropped), C++ evaluation order, pointer = offset, string_view = (offset, length), objects = fields; Model/GenWorld.lean reads the model answers as C results",
+TRUSTED = ["tools/cxx2lean_eff.py stage 3 (DESIGN.md 0.7.2): StepTodos over the abstract deque/task interface Gen.TodoWorld (front()->when, pop_front after move, task->what(), empty() recognised by canonical text + provenance of the locals); Model/GenTodoWorld.lean reads the ToDo model as that interface; string_view = cursor + immutable end",
+           "tools/cxx2lean_eff.py (stage 2, DESIGN.md 0.7.1): world boundary (DoPoll, Interrupted, Clock::now, ::send, ::recv, SocketError opaque; handles dropped), C++ evaluation order, pointer = offset, string_view = (offset, length), objects = fields; Model/GenWorld.lean reads the model answers as C results",
            "tools/cxx2lean.py (source-derived tie, DESIGN.md 0.7): clang-14 JSON AST, chrono unit semantics read from the desugared types, unbounded Int for signed arithmetic (overflow = UB), abstract memcmp / container queries",
            "vos shim (virtual clock: a poll with nothing ready advances the clock by its timeout)"]
 ALL_TAGS = ["recv.none", "recv.value", "recv.unl", "recv.zero", "recv.lim", "send.all", "send.try", "send.some", "sendto", "recvfrom",
